@@ -1715,6 +1715,10 @@ int V(c10_replay)(const char *text, FILE *out, char keys[][128], int maxkeys)
 	tls_ctx = c;
 	c->out = out;
 	c->lenient = 1;
+	c->klog_cap = 256;
+	c->klog = malloc(c->klog_cap);
+	if (!c->klog)
+		die("oom");
 	struct st *cur = calloc(1, sizeof(*cur)), *post = calloc(1, sizeof(*post));
 	cur->h.ps.cur = -1;
 	uint8_t trans[4 + 2 * MAXCALLS];
